@@ -266,13 +266,13 @@ def count_clauses(gen_path, info):
     return total, per
 
 
-def check_unit(name, unit, tier):
+def check_unit_once(name, unit, tier, contract_only=()):
     res = {"unit": name, "status": "ok", "violations": [], "undecided": [], "functions": [], "assumptions": [],
            "wall": 0.0}
     gen = os.path.join(BUILD, "gen", name + ".rs")
     t0 = time.time()
     try:
-        info = weave.build_unit(REPO, CONTRACTS, unit, gen)
+        info = weave.build_unit(REPO, CONTRACTS, unit, gen, contract_only=contract_only)
     except (AnchorLost, LexError, ValueError, IndexError, KeyError) as e:
         res["status"] = "undecided"
         res["undecided"].append({"why": "extraction/weaving failed: %s: %s" % (type(e).__name__, e)})
@@ -325,6 +325,7 @@ def check_unit(name, unit, tier):
             reg = region_of(info, e["line"])
         sem = bool(SEM_RE.search(e["msg"]))
         rec = {"msg": e["msg"], "gen_line": e["line"], "region": reg["name"] if reg else None,
+               "contract_only": bool(reg and reg.get("contract_only")),
                "region_mode": reg.get("mode") if reg else None,
                "repo_loc": ("%s:%d-%d" % reg["loc"]) if reg and "loc" in reg else None,
                "changed_vs_contract": reg.get("changed") if reg else None,
@@ -366,6 +367,29 @@ def check_unit(name, unit, tier):
     elif res["undecided"]:
         res["status"] = "undecided"
     res["wall"] = time.time() - t0
+    return res
+
+
+
+
+def check_unit(name, unit, tier):
+    """Run once; if the weaving of a *changed* function produced text Verus cannot even parse/resolve (the proof
+    hints no longer fit the new body), retry with that function in contract-only mode (signature contract kept,
+    body hints dropped). Semantic failures of a contract-only function need confirmation by replay (report.py)."""
+    res = check_unit_once(name, unit, tier)
+    broken = set()
+    for u in res.get("undecided", []):
+        if u.get("region") and u.get("region_mode") == "verify" and u.get("changed_vs_contract") and "msg" in u:
+            broken.add(u["region"])
+    if not broken and res.get("status") == "undecided":
+        # syntax errors abort before regions are attributed by verification: use the first located error
+        for u in res.get("undecided", []):
+            if u.get("region") and u.get("region_mode") == "verify" and "msg" in u:
+                broken.add(u["region"])
+    if broken:
+        res2 = check_unit_once(name, unit, tier, contract_only=tuple(broken))
+        res2["contract_only_retry"] = sorted(broken)
+        return res2
     return res
 
 
